@@ -49,7 +49,7 @@ package kfake
 // the value returned is the batch's first offset, and the log-bounds invariant is preserved - a transactional
 // batch registers its producer at its first offset unless the producer already has an earlier open one.
 //@ func (c *Cluster) pushBatch(pd *partData, nbytes int, b kmsg.RecordBatch, inTx bool) (first int64)
-//@   prop C32
+//@   prop C32 C05
 //@   requires b.NumRecords >= 0 && pd.highWatermark >= 0 && pd.highWatermark <= 4611686018427387904
 //@   requires pd.lastStableOffset <= pd.highWatermark
 //@   requires len(pd.uncommittedPIDs) == 0 ==> pd.lastStableOffset == pd.highWatermark
@@ -71,3 +71,6 @@ package kfake
 //@ func (c *Cluster) handleFetch(creq *clientReq, w *watchFetch) (resp kmsg.Response, err error)
 //@   prop C05 C32
 //@   site call readBatchRaw#0 assert [read-committed-stays-below-lso] readCommitted ==> m.firstOffset < pd.lastStableOffset
+//@   loop 13 exit [aborted-index-scanned-to-its-end] j >= len(pd.abortedTxns)
+//@   site store FirstOffset#0 assert [listed-transactions-overlap-the-served-range] val == e.firstOffset && e.firstOffset < upperBound
+//@   site store ProducerID#0 assert [listed-with-its-producer] val == e.producerID
